@@ -18,6 +18,7 @@ import (
 	"os/signal"
 	"path/filepath"
 	"sort"
+	"strings"
 	"sync"
 	"sync/atomic"
 	"syscall"
@@ -133,7 +134,7 @@ func hook(name string, args ...string) {
 		if len(args) > 0 {
 			arg = args[0]
 		}
-		if a.arg != "" && a.arg != arg && a.arg != filepath.Base(arg) {
+		if a.arg != "" && a.arg != arg && a.arg != filepath.Base(arg) && !strings.HasSuffix(arg, a.arg) {
 			continue
 		}
 		if a.left.Add(-1) == 0 {
